@@ -14,6 +14,8 @@ inductive SOp where
   | reg (n : Name) (r : Route)
   | unreg (n : Name) (face origin : Nat)
   | cleanup (face : Nat)
+  | fins (n : Name) (face cost : Nat)    -- direct FIB command: InsertNextHopEnc
+  | frem (n : Name) (face : Nat)         -- direct FIB command: RemoveNextHopEnc
   | sets (n strat : Name)
   | unsets (n : Name)
   | nh (n : Name)          -- FindNextHopsEnc
@@ -26,9 +28,17 @@ deriving Repr
 structure SSt where
   rib : C06.Spec
   strat : List (Name × Name)
+  /-- next hops installed by direct FIB commands (management `fib add-nexthop`); the generated
+      histories keep these on prefixes the RIB never touches -/
+  direct : C05.Spec
 deriving Repr
 
-def SSt.init (dflt : Name) : SSt := ⟨C06.Spec.init, [([], dflt)]⟩
+def SSt.init (dflt : Name) : SSt := ⟨C06.Spec.init, [([], dflt)], C05.Spec.init dflt⟩
+
+/-- next hops of exactly prefix `p`: installed directly, or the flattening of its routes -/
+def SSt.fibAt (s : SSt) (p : Name) : Hops :=
+  let d := s.direct.nhAt p
+  if !d.isEmpty then d else s.rib.fibAt p
 
 def insertBy {α : Type} (lt : α → α → Bool) (x : α) : List α → List α
   | [] => [x]
@@ -57,19 +67,22 @@ def SSt.apply (s : SSt) : SOp → SSt × String
   | .reg n r => ({ s with rib := s.rib.apply (.reg n r) }, "ok")
   | .unreg n f o => ({ s with rib := s.rib.apply (.unreg n f o) }, "ok")
   | .cleanup f => ({ s with rib := s.rib.apply (.cleanup f) }, "ok")
+  | .fins n f c => ({ s with direct := s.direct.apply (.ins n f c) }, "ok")
+  | .frem n f => ({ s with direct := s.direct.apply (.rem n f) }, "ok")
   | .sets n x => ({ s with strat := aset s.strat n x }, "ok")
   | .unsets n => ({ s with strat := aerase s.strat n }, "ok")
-  | .nh n => (s, renderHops (s.rib.lookup n))
+  | .nh n => (s, renderHops (lpm s.fibAt (fun h => !h.isEmpty) [] n n.length))
   | .st n => (s, match lpm s.stratAt (fun x => x.isSome) none n n.length with
                  | some x => x.toText
                  | none => "none")
-  | .lf => (s, renderListing (s.rib.listFib.map fun p => (p.1.toText, renderHops p.2)))
+  | .lf => (s, renderListing ((s.rib.listFib ++ s.direct.listFib).map fun p => (p.1.toText, renderHops p.2)))
   | .lr => (s, renderListing (s.rib.listRib.map fun p => (p.1.toText, renderRoutes p.2)))
   | .ls => (s, renderListing (s.strat.map fun p => (p.1.toText, p.2.toText)))
 
 /-- canonical key of a state (listing order independent) -/
 def SSt.key (s : SSt) : String :=
-  (s.apply .lr).2 ++ "|" ++ (s.apply .ls).2
+  (s.apply .lr).2 ++ "|" ++ (s.apply .ls).2 ++ "|" ++
+    renderListing (s.direct.listFib.map fun p => (p.1.toText, renderHops p.2))
 
 /-- one completed operation of a recorded history -/
 structure HOp where
